@@ -53,6 +53,7 @@ def run(ctx):
     bases = [D(2021, 8, 31, 13, 7)] if tier == "quick" else [D(2021, 8, 31, 13, 7), D(2020, 2, 29, 23, 59), D(2023, 1, 1, 0, 0)]
     cases = []       # pairs: (localized in locale, canon in English)
     meta = []
+    npat = 0
     for rec, key in recs:
         for norm in (True, False):
             for phrase, canon in single_phrases(rec):
@@ -65,7 +66,11 @@ def run(ctx):
                     meta.append((rec["name"], norm, phrase, canon, "fixed"))
             for pat, canon in patterns(rec):
                 ns = COUNTS if tier != "quick" else [R.choice(COUNTS), "1"]
-                ns = list(dict.fromkeys(ns)) + ([R.choice(DECIMALS)] if R.random() < (0.3 if tier != "quick" else 0.1) and re.search(r"hour|minute|second", canon) else [])
+                # decimals where the pattern allows them (sub-day units): both spellings in the thorough tier, one (fixed by the pattern's
+                # position, not by the PRNG) in the quick tier
+                subday = bool(re.search(r"hour|minute|second", canon))
+                npat += 1
+                ns = list(dict.fromkeys(ns)) + ((DECIMALS if tier != "quick" else [DECIMALS[npat % 2]]) if subday and (tier != "quick" or npat % 5 == 0) else [])
                 for n in ns:
                     b = R.choice(bases)
                     st = {"RELATIVE_BASE": b, "TIMEZONE": "UTC"}
@@ -76,7 +81,9 @@ def run(ctx):
                     meta.append((rec["name"], norm, pat, canon, "count=" + n))
     lres = pmap(lib_gdd, cases, chunksize=128)
     known = load_known("C06")
-    kset = {(e["key"]["locale"], e["key"]["normalize"], e["key"]["phrase"]) for e in known}
+    kset = {(e["key"]["locale"], e["key"]["normalize"], e["key"]["phrase"]) for e in known if "count" not in e["key"]}
+    # findings that concern one count only (e.g. the decimal comma): other counts of the same phrase are still judged
+    kcount = {(e["key"]["locale"], e["key"]["normalize"], e["key"]["phrase"], e["key"]["count"]) for e in known if "count" in e["key"]}
     viol = collections.OrderedDict()
     kh = set()
     ok = 0
@@ -92,6 +99,8 @@ def run(ctx):
         k = (loc, norm, phrase)
         if k in kset:
             kh.add(k)
+        elif kind.startswith("count=") and k + (kind[6:],) in kcount:
+            kh.add(k + (kind[6:],))
         else:
             v = viol.setdefault(k, {"locale": loc, "normalize": norm, "phrase": phrase, "canon": canon, "failing": []})
             if len(v["failing"]) < 4:
@@ -119,4 +128,4 @@ def run(ctx):
            "rows": len(meta), "rows_failing_unlisted": len(vl), "rows_known": len(kh),
            "model_compared": len(sub) if "model-build" not in ctx["broken"] else 0, "model_rejected": dict(rej), "model_drift": len(drift),
            "model_drift_samples": [{"s": d["case"]["s"], "model": d["model"], "lib": d["lib"]} for d in drift[:5]]}
-    return {"violations": out, "known": ["(%s, normalize=%s) %r" % k for k in sorted(kh)], "coverage": cov, "level": "proof"}
+    return {"violations": out, "known": [("(%s, normalize=%s) %r" % k[:3]) + ((" with count %s only" % k[3]) if len(k) > 3 else "") for k in sorted(kh, key=str)], "coverage": cov, "level": "proof"}
